@@ -232,6 +232,61 @@ class Body:
                 st.append(s)
         return seen
 
+    def enum_paths(self, start, avoid=(), limit=4000):
+        """Acyclic paths from block `start` to a return block that avoid `avoid`, as lists of
+        (switch_bb, label) decisions. Boolean/integer locals assigned constants along the path are
+        tracked so that a later switch on such a local follows only the consistent edge."""
+        out = []
+        avoid = set(avoid)
+
+        def const_of(op, env):
+            if op[0] == "k":
+                c = op[1]
+                return c.get("v") if isinstance(c, dict) else None
+            pl = op[1]
+            if len(pl) == 1:
+                return env.get(pl[0])
+            return None
+
+        def walk(bb, env, facts, seen):
+            if len(out) >= limit:
+                return
+            if bb in avoid or bb in seen:
+                return
+            seen = seen | {bb}
+            env = dict(env)
+            for s in self.stmts(bb):
+                if s[0] == "=" and len(s[1]) == 1:
+                    rv = s[2]
+                    val = None
+                    if rv[0] == "use":
+                        val = const_of(rv[1], env)
+                    env.pop(s[1][0], None)
+                    if val is not None:
+                        env[s[1][0]] = val
+            t = self.term(bb)
+            if t[0] == "ret":
+                out.append(list(facts))
+                return
+            if t[0] == "switch":
+                known = const_of(t[1], env)
+                edges = self.switch_edges(bb)
+                if known is not None:
+                    vals = [l for (l, _) in edges if l != "otherwise"]
+                    lab = known if known in vals else "otherwise"
+                    edges = [(l, x) for (l, x) in edges if l == lab]
+                for (lab, tgt) in edges:
+                    walk(tgt, env, facts + [(bb, lab)], seen)
+                return
+            if t[0] == "call":
+                d = t[1]
+                if len(d["dest"]) == 1:
+                    env.pop(d["dest"][0], None)
+            for sx in self.succs(bb):
+                walk(sx, env, facts, seen)
+        walk(start, {}, [], frozenset())
+        return out
+
     def return_blocks(self):
         return [b for b in self.reachable() if self.term(b)[0] == "ret"]
 
